@@ -78,8 +78,6 @@ def project(x, names):
     if isinstance(x, Atom):
         return {"t": "a", "n": x._name}
     if isinstance(x, Functor):
-        if len(x._args) == 0:
-            return {"t": "c0", "n": x._name}
         return {"t": "c", "n": x._name, "a": [project(a, names) for a in x._args]}
     if isinstance(x, bool):
         return {"t": "py", "v": repr(x)}
@@ -254,14 +252,15 @@ class Runner:
         try:
             next(self.q[r][0])
         except StopIteration:
-            return {"k": "stop"}
+            return {"k": "stop", "stale": self.check_saved(r)}
         except NativeBoom as e:
             if e is not self.nstate.boom:
                 return {"k": "exception", "exc": "NativeBoom(other object)"}
-            return {"k": "raised"}
+            return {"k": "raised", "stale": self.check_saved(r)}
         o = {"k": "answer", "ans": project_tuple(self.qv[r])}
-        if self.opts.get("c15"):
-            # what the public accessors return at this answer
+        if self.opts.get("c15", True):
+            # what the public accessors return at this answer (a consumer reads answers through
+            # get_value / to_python, so the replay does too)
             gv = [engine.get_value(v) for v in self.qv[r]]
             o["gv"] = project_raw_tuple(gv)
             o["py"] = []
@@ -368,7 +367,7 @@ class Runner:
             return self.one_next(op["r"])
         if k == "close":
             self.close(op["r"], op["how"])
-            return {"k": "ok"}
+            return {"k": "ok", "stale": self.check_saved(op["r"])}
         if k == "solve":
             self.start_query(op)
             r = op["r"]
